@@ -672,7 +672,9 @@ def _build_doc(font_model, enc_value, enc_stream, subtype, rnd, strings, size, x
         decoy_tu, _ = FS.tounicode_cmap({c: "#" for c in range(0, 96)}, codelen=2)
         extra[25] = W.Stream({}, decoy_tu)
         fonts = {"F0": C.type0(W.N("Identity-H"), W.R(20), W.R(25)), "F1": f}
-    return W.page_doc(b"\n".join(ops), fonts=fonts, extra=extra)
+    # the font shown may be a direct dictionary (after an indirect entry, when there is a decoy)
+    direct = ("F1",) if rnd.random() < 0.3 else ()
+    return W.page_doc(b"\n".join(ops), fonts=fonts, extra=extra, direct_fonts=direct)
 
 
 def _widths(rnd, font, cids, classes):
